@@ -429,6 +429,18 @@ def _check_fetch_include_shape(chk, mod):
         chk.unrec('C17.C', '_fetch_include: branches not recognised', mod.rel)
 
 
+def check_include_whole(chk):
+    """C17.R (E9r): the whole pipeline evaluated on include trees with same-named files in different directories"""
+    from .. import progsim
+    n, problems = progsim.run_include_whole(chk.repo, 'C17.R')
+    mod = chk.repo.module('runtime')
+    for desc, msg in problems:
+        chk.bad('C17.R', mod, 'execute_script', f'include program: {desc[:80]}', f'whole-program evaluation (E9r) of include trees: {msg}', node=mod.funcs.get('_execute_script_helper'))
+    if not problems:
+        chk.ok('C17.R', f'{n} include trees with same-named files in two directories evaluated whole: every include statement runs the file next to its includer (or under the prefix)', count=n)
+    return not problems
+
+
 def run(chk):
     chk.rule('C17.R', 'resolution table: system+prefix -> relative to the prefix; urlFn; unchanged (abstract execution, E6s)', floor=4)
     chk.rule('C17.I', 're-based urlFn only in the copy handed to the nested run', floor=1)
@@ -440,6 +452,7 @@ def run(chk):
     chk.rule('C17.C', 'CLI include loader configuration', floor=2)
     chk.assumptions += ['os.path / pathlib behave as documented; fetchFn/urlFn are host functions']
     chk.guard('C17.R', check_include_sim, chk)
+    chk.guard('C17.R', check_include_whole, chk)
     chk.guard('C17.I', check_isolation, chk)
     if chk.guard('C17.P', check_parser_side_sim, chk):
         chk.advisory('C17.P', check_parser_side, chk)
